@@ -3,3 +3,4 @@
 import EE.Basic
 import EE.Adequacy2
 import EE.Lex
+import EE.NotTern
